@@ -25,6 +25,7 @@ PROPERTY = "C25"
 RULE = (
     "Hypothesis-generated histories (≤16 ops) over 2 workers (shared token key, distinct server_id, colliding "
     "session ids) × 4 identities (anonymous, two principals, same principal in another domain): open(ttl), "
+    "open-twin (same identity and SAME session id on the peer worker), "
     "present(token, worker, identity, method ∈ read/close/open, spelling), mutant-present / mutant-DELETE "
     "(bit flip, byte substitution, truncation of bytes or base64 chars, head drop, extension, char substitution, "
     "half swap, zeroed tag), DELETE, clock advance (incl. to expiry∓1ms), reaper tick, expire-then-tick, shutdown; plus a focused "
@@ -85,7 +86,7 @@ op_open = st.builds(
     st.integers(0, 1), st.integers(0, N_ID - 1), st.sampled_from(TTLS),
 )
 
-_KINDS = (["present"] * 8 + ["open"] * 3 + ["mutant"] * 2 + ["delete"] * 3 + ["advance"] * 1 + ["advance_to"] * 3
+_KINDS = (["present"] * 8 + ["open"] * 3 + ["open_twin"] * 3 + ["mutant"] * 2 + ["delete"] * 3 + ["advance"] * 1 + ["advance_to"] * 3
           + ["tick"] * 2 + ["expire_tick"] * 2 + ["shutdown"] * 1)
 
 
@@ -95,6 +96,8 @@ def _mk_op(kind: str, tok: int, w: Any, i: Any, m: str, sp: Any, mut: dict[str, 
         return {"op": "present", "tok": tok, "w": w, "id": i, "m": m, "spell": sp}
     if kind == "open":
         return {"op": "open", "w": w01, "id": id03, "ttl": ttl}
+    if kind == "open_twin":
+        return {"op": "open_twin", "tok": tok, "ttl": ttl}
     if kind == "mutant":
         return {"op": "mutant", "tok": tok, "mut": mut, "m": m, "via": via}
     if kind == "delete":
@@ -137,6 +140,8 @@ class _Run:
         self.model = RegistryModel()
         self.tokens: list[tuple[str, int]] = []  # (token, serial)
         self.fp200: dict[tuple[int, int], tuple[str, str]] = {}  # (worker, identity) -> reference 200 fingerprint
+        self.sid: dict[int, int] = {}  # serial -> session id number handed out by the deterministic id source
+        self.used: set[tuple[int, int]] = set()  # (worker, id number) already minted
         self.nt = False
         self.step = 0
 
@@ -203,9 +208,24 @@ class _Run:
 
     # -- ops
 
-    def do_open(self, op: dict[str, Any]) -> None:
+    def do_open_twin(self, op: dict[str, Any]) -> None:
+        """Open, on the peer worker and under the same identity, a session with the SAME session id as tok's."""
+        p = self.pick(op["tok"])
+        if p is None:
+            return
+        s = self.model.sessions[p[1]]
+        sid = self.sid[s.serial]
+        w = 1 - s.worker
+        if (w, sid) in self.used:
+            return
+        self.do_open({"w": w, "id": s.identity, "ttl": op["ttl"]}, force_id=sid)
+        self.out.label("op=open_twin")
+
+    def do_open(self, op: dict[str, Any], force_id: int | None = None) -> None:
         w, i = op["w"], op["id"]
+        self.world.force_id = force_id
         r = self.world.request(w, i, "o", op["ttl"], accept=True)
+        self.world.force_id = None
         if r.error_type is not None or not r.value or not r.value.startswith("o=") or not r.minted:
             self.fail("open_failed", f"open on worker {w} identity {i}: value={r.value!r} error={r.error_type} "
                       f"{r.error_message} minted={bool(r.minted)}")
@@ -213,6 +233,9 @@ class _Run:
         serial = int(r.value[2:])
         self.model.open(serial, w, i, self.ttl_ms(op["ttl"]))
         self.tokens.append((r.minted, serial))
+        assert self.world.last_id is not None
+        self.sid[serial] = self.world.last_id
+        self.used.add((w, self.world.last_id))
         self.out.label("op=open")
 
     def do_present(self, op: dict[str, Any]) -> None:
@@ -343,6 +366,8 @@ class _Run:
         kind = op["op"]
         if kind == "open":
             self.do_open(op)
+        elif kind == "open_twin":
+            self.do_open_twin(op)
         elif kind == "present":
             self.do_present(op)
         elif kind == "mutant":
@@ -425,8 +450,32 @@ def _grid() -> list[dict[str, Any]]:
     return cases
 
 
+def _cross_grid() -> list[dict[str, Any]]:
+    """Twin sessions (same id, same identity) on both workers; each token is then used on the wrong worker."""
+    cases: list[dict[str, Any]] = []
+    for w in (0, 1):
+        for ident in range(N_ID):
+            for m in ("r", "c"):
+                for first in ("present", "delete"):
+                    wrong = ({"op": "present", "tok": 0, "w": "other", "id": "mint", "m": m, "spell": None}
+                             if first == "present" else {"op": "delete", "tok": 0, "w": "other", "id": "mint", "spell": None})
+                    cases.append({"collide": True, "ops": [
+                        {"op": "open", "w": w, "id": ident, "ttl": 3001},
+                        {"op": "open_twin", "tok": 0, "ttl": 3001},
+                        wrong,
+                        {"op": "present", "tok": 1, "w": "mint", "id": "mint", "m": "r", "spell": None},  # twin untouched
+                        {"op": "present", "tok": 1, "w": "other", "id": "mint", "m": m, "spell": None},
+                        {"op": "present", "tok": 0, "w": "mint", "id": "mint", "m": "r", "spell": None},
+                        {"op": "delete", "tok": 1, "w": "other", "id": "mint", "spell": None},
+                        {"op": "delete", "tok": 0, "w": "mint", "id": "mint", "spell": None},
+                        {"op": "present", "tok": 1, "w": "mint", "id": "mint", "m": "r", "spell": None},
+                    ]})
+    return cases
+
+
 def main(chk: Check) -> None:
-    chk.explore("history", histories, run_history, quick=450, thorough=12000)
-    chk.explore("focused", focused, run_focused, quick=150, thorough=4000)
+    chk.enumerate("cross_worker_twins", _cross_grid(), run_history)
+    chk.explore("history", histories, run_history, quick=400, thorough=24000)
+    chk.explore("focused", focused, run_focused, quick=150, thorough=8000)
     complete = chk.enumerate("bitflips_truncations", _grid(), run_focused)
     chk.extra["grid_complete"] = bool(complete)
